@@ -80,6 +80,7 @@ type Outcome struct {
 	RetI  *int64 // integer constant returned (RetIdx result), if it is one
 	Ret   Tri
 	Ended string // return, stop, loop, panic
+	Err   bool   // the return hands out an error that is not nil on this path (error return, not a verdict)
 	Why   string // first unknown condition met on the path (diagnostics)
 }
 
@@ -269,7 +270,7 @@ func (w *Walker) walk(b, pred *ssa.BasicBlock, ps *pstate) {
 		last := b.Instrs[len(b.Instrs)-1]
 		switch t := last.(type) {
 		case *ssa.Return:
-			o := Outcome{Hit: ps.hit, Tag: ps.tag, Ended: "return", Why: w.why}
+			o := Outcome{Hit: ps.hit, Tag: ps.tag, Ended: "return", Why: w.why, Err: returnsNonNilError(t)}
 			if w.RetIdx >= 0 && w.RetIdx < len(t.Results) && isBool(t.Results[w.RetIdx].Type()) {
 				o.Ret = w.evalBool(t.Results[w.RetIdx], ps)
 			}
@@ -915,4 +916,42 @@ func (w *Walker) evalInt(v ssa.Value, ps *pstate) (int64, bool) {
 		}
 	}
 	return 0, false
+}
+
+// returnsNonNilError: the last result of ret is an error that cannot be nil here: it was just made
+// (fmt.Errorf, errors.New, a composite converted to error), or the return is guarded by `err != nil`.
+func returnsNonNilError(ret *ssa.Return) bool {
+	if len(ret.Results) == 0 {
+		return false
+	}
+	r := ret.Results[len(ret.Results)-1]
+	if !isErrorType(r.Type()) {
+		return false
+	}
+	switch x := r.(type) {
+	case *ssa.MakeInterface:
+		return true
+	case *ssa.Call:
+		if f := x.Call.StaticCallee(); f != nil && f.Pkg != nil {
+			if p := f.Pkg.Pkg.Path(); (p == "fmt" && f.Name() == "Errorf") || (p == "errors" && f.Name() == "New") {
+				return true
+			}
+		}
+	}
+	for _, g := range guardsOf(ret.Block()) {
+		v, sense := g.Cond, g.Sense
+		for {
+			u, ok := v.(*ssa.UnOp)
+			if !ok || u.Op != token.NOT {
+				break
+			}
+			v, sense = u.X, !sense
+		}
+		if bo, ok := v.(*ssa.BinOp); ok && bo.X == r && isNilConst(bo.Y) {
+			if (bo.Op == token.NEQ && sense) || (bo.Op == token.EQL && !sense) {
+				return true
+			}
+		}
+	}
+	return false
 }
